@@ -10,16 +10,22 @@ package c15
 
 import (
 	"context"
+	"encoding/json"
 	"fmt"
+	"net/http/httptest"
 	"sort"
 	"strings"
 	"testing"
 	"testing/synctest"
 	"time"
 
+	"github.com/prometheus/client_golang/prometheus"
 	"github.com/prometheus/common/model"
+	"github.com/prometheus/common/promslog"
 
 	"github.com/prometheus/alertmanager/alert"
+	apiv2 "github.com/prometheus/alertmanager/api/v2"
+	apimodels "github.com/prometheus/alertmanager/api/v2/models"
 	"github.com/prometheus/alertmanager/config"
 	"github.com/prometheus/alertmanager/dispatch"
 	"github.com/prometheus/alertmanager/timeinterval"
@@ -310,6 +316,54 @@ type flushObs struct {
 	by        []string
 	isMuted   bool
 	haveGroup bool
+	// GET /api/v2/alerts/groups after this flush
+	api        []apiGroup // every group of receiver "team" the API lists (default query), by group id
+	apiUnmuted []int      // group ids listed for ?muted=false
+	apiErr     string
+	markerAll  map[int][]string // marker.Muted(routeID, groupKey) of every group dispatcher.Groups lists
+}
+
+type apiGroup struct {
+	gid int
+	by  []string
+}
+
+// apiGroups asks the real HTTP handler chain of api/v2 for the alert groups and returns, per group of receiver
+// "team", the mutedBy reported for its alerts (all alerts of one group must carry the same list).
+func apiGroups(a *apiv2.API, query string) ([]apiGroup, error) {
+	rec := httptest.NewRecorder()
+	a.Handler.ServeHTTP(rec, httptest.NewRequest("GET", "/api/v2/alerts/groups"+query, nil))
+	if rec.Code != 200 {
+		return nil, fmt.Errorf("GET /alerts/groups%s: status %d: %s", query, rec.Code, rec.Body.String())
+	}
+	var got apimodels.AlertGroups
+	if err := json.Unmarshal(rec.Body.Bytes(), &got); err != nil {
+		return nil, err
+	}
+	var out []apiGroup
+	for _, g := range got {
+		if g.Receiver == nil || g.Receiver.Name == nil || *g.Receiver.Name != "team" {
+			continue
+		}
+		gid := -1
+		for i, n := range sysAlertNames {
+			if g.Labels["alertname"] == n {
+				gid = i
+			}
+		}
+		if gid < 0 || len(g.Alerts) == 0 {
+			return nil, fmt.Errorf("unexpected group %v with %d alerts", g.Labels, len(g.Alerts))
+		}
+		by := g.Alerts[0].Status.MutedBy
+		for _, al := range g.Alerts {
+			if fmt.Sprint(al.Status.MutedBy) != fmt.Sprint(by) {
+				return nil, fmt.Errorf("alerts of one group carry different mutedBy")
+			}
+		}
+		out = append(out, apiGroup{gid, append([]string{}, by...)})
+	}
+	sort.Slice(out, func(i, j int) bool { return out[i].gid < out[j].gid })
+	return out, nil
 }
 
 var sysAlertNames = []string{"A", "B"}
@@ -347,6 +401,15 @@ func (rn *runner) sys(c *Case) {
 		}
 		child := s.Conf.Route.Routes[0]
 		conf.mute, conf.active = child.MuteTimeIntervals, child.ActiveTimeIntervals
+		// the real API, wired as app.go does: groups = the dispatcher's Groups, muted = the group marker's Muted
+		api, err := apiv2.NewAPI(s.Alerts, s.Disp.Groups, s.Marker.Muted, s.Silences, nil, promslog.NewNopLogger(), prometheus.NewRegistry())
+		if err != nil {
+			t.Fatalf("apiv2.NewAPI: %v", err)
+		}
+		api.Update(s.Conf, func(ctx context.Context, ls model.LabelSet) {
+			s.Inhibitor.Mutes(ctx, ls)
+			s.Silencer.Mutes(ctx, ls)
+		})
 		put := func(g int) {
 			now := time.Now()
 			s.PutAlert(&alert.Alert{Alert: model.Alert{Labels: model.LabelSet{"alertname": model.LabelValue(sysAlertNames[g]), "team": "x"},
@@ -395,10 +458,39 @@ func (rn *runner) sys(c *Case) {
 				fail = "dispatcher.Groups: " + err.Error()
 				return
 			}
+			fo.markerAll = map[int][]string{}
 			for _, g := range groups {
-				if g.Receiver == "team" && string(g.Labels["alertname"]) == sysAlertNames[fo.gid] {
-					fo.by, fo.isMuted = s.Marker.Muted(g.RouteID, g.GroupKey) // exactly what api/v2 getAlertGroupsHandler does
+				if g.Receiver != "team" {
+					continue
+				}
+				for gid, n := range sysAlertNames {
+					if string(g.Labels["alertname"]) == n {
+						fo.markerAll[gid], _ = s.Marker.Muted(g.RouteID, g.GroupKey)
+					}
+				}
+				if string(g.Labels["alertname"]) == sysAlertNames[fo.gid] {
+					fo.by, fo.isMuted = s.Marker.Muted(g.RouteID, g.GroupKey)
 					fo.haveGroup = true
+				}
+			}
+			// what a user sees: GET /api/v2/alerts/groups (default, ?muted=true, ?muted=false) through the HTTP handler
+			all, err1 := apiGroups(api, "")
+			allT, err2 := apiGroups(api, "?muted=true")
+			unm, err3 := apiGroups(api, "?muted=false")
+			for _, e := range []error{err1, err2, err3} {
+				if e != nil && fo.apiErr == "" {
+					fo.apiErr = e.Error()
+				}
+			}
+			if fo.apiErr == "" && fmt.Sprint(all) != fmt.Sprint(allT) {
+				fo.apiErr = "?muted=true differs from the default query"
+			}
+			fo.api = all
+			fo.apiUnmuted = []int{}
+			for _, g := range unm {
+				fo.apiUnmuted = append(fo.apiUnmuted, g.gid)
+				if len(g.by) != 0 && fo.apiErr == "" {
+					fo.apiErr = "a group listed for ?muted=false carries mutedBy names"
 				}
 			}
 			obs = append(obs, *fo)
@@ -413,12 +505,16 @@ func (rn *runner) sys(c *Case) {
 	}
 	var flushes []string
 	nPass, nBlock := 0, 0
+	lastWant := map[int][]string{} // per group: the names its last flush should have left in the marker
+	opposite := false
 	for i, f := range obs {
 		if !f.haveGroup {
 			rn.run.Violate("group-missing-from-api", "the alert's group is not listed by dispatcher.Groups", c)
 		}
 		flushes = append(flushes, vh.App("mkFlush", vh.Nat(f.gid), vh.Z(f.now.Unix()), coqTzTableTI(conf.tis, f.now.Unix()),
-			vh.Bool(f.notified), vh.ListOf(f.by, vh.Str), vh.Bool(f.isMuted)))
+			vh.Bool(f.notified), vh.ListOf(f.by, vh.Str), vh.Bool(f.isMuted),
+			vh.ListOf(f.api, func(g apiGroup) string { return vh.Pair(vh.Nat(g.gid), vh.ListOf(g.by, vh.Str)) }),
+			vh.ListOf(f.apiUnmuted, vh.Nat)))
 		if f.notified {
 			nPass++
 		} else {
@@ -439,6 +535,42 @@ func (rn *runner) sys(c *Case) {
 		activeBy, _ := specMutedBy(m, conf.active, f.now)
 		blockedActive := len(conf.active) > 0 && len(activeBy) == 0
 		blockedMute := len(mutedBy) > 0
+		var wantBy []string
+		switch {
+		case blockedActive:
+			wantBy = asSet(conf.active)
+		case blockedMute:
+			wantBy = mutedBy
+		}
+		// direct oracle on the API view: EVERY listed group carries the names written at ITS OWN last flush
+		lastWant[f.gid] = wantBy
+		if f.apiErr != "" {
+			rn.run.Violate("api-groups-query-inconsistent", fmt.Sprintf("after sys flush %d: %s", i, f.apiErr), c)
+		}
+		if len(f.api) != len(f.markerAll) {
+			rn.run.Violate("api-groups-missing", fmt.Sprintf("after sys flush %d: the API lists %d groups of the route, the dispatcher has %d", i, len(f.api), len(f.markerAll)), c)
+		}
+		states := map[bool]bool{}
+		var wantUnmuted []int
+		for _, g := range f.api {
+			states[len(g.by) > 0] = true
+			if fmt.Sprint(g.by) != fmt.Sprint(f.markerAll[g.gid]) {
+				rn.run.Violate("api-muted-by-differs-from-marker", fmt.Sprintf("after sys flush %d at %s: GET /alerts/groups reports group %d mutedBy=%v, the marker of that (route, group) holds %v", i, f.now.UTC(), g.gid, g.by, f.markerAll[g.gid]), c)
+			}
+			if fmt.Sprint(asSet(g.by)) != fmt.Sprint(asSet(lastWant[g.gid])) {
+				rn.run.Violate("api-muted-by-wrong", fmt.Sprintf("after sys flush %d at %s: GET /alerts/groups reports group %d mutedBy=%v, its last flush was muted by %v", i, f.now.UTC(), g.gid, g.by, lastWant[g.gid]), c)
+			}
+			if len(lastWant[g.gid]) == 0 {
+				wantUnmuted = append(wantUnmuted, g.gid)
+			}
+		}
+		if fmt.Sprint(f.apiUnmuted) != fmt.Sprint(append([]int{}, wantUnmuted...)) {
+			rn.run.Violate("api-muted-filter-wrong", fmt.Sprintf("after sys flush %d at %s: ?muted=false lists groups %v, the groups whose last flush was not muted are %v", i, f.now.UTC(), f.apiUnmuted, wantUnmuted), c)
+		}
+		if len(states) == 2 {
+			rn.run.Count("sys_flushes", "api: groups of the one route in opposite muted states")
+			opposite = true
+		}
 		if f.notified != (!blockedActive && !blockedMute) {
 			key := "gating-notified-while-muted"
 			if !blockedActive && !blockedMute {
@@ -446,13 +578,6 @@ func (rn *runner) sys(c *Case) {
 			}
 			rn.run.Violate(key, fmt.Sprintf("sys flush %d (group %d) at %s: notified=%v; mute intervals containing it=%v; active=%v containing=%v", i, f.gid, f.now.UTC(), f.notified, mutedBy, conf.active, activeBy), c)
 			continue
-		}
-		var wantBy []string
-		switch {
-		case blockedActive:
-			wantBy = asSet(conf.active)
-		case blockedMute:
-			wantBy = mutedBy
 		}
 		if fmt.Sprint(asSet(f.by)) != fmt.Sprint(wantBy) || f.isMuted != (len(wantBy) > 0) {
 			rn.run.Violate("marker-names-wrong", fmt.Sprintf("sys flush %d (group %d) at %s: API mutedBy=%v/%v, expected %v", i, f.gid, f.now.UTC(), f.by, f.isMuted, wantBy), c)
@@ -466,4 +591,7 @@ func (rn *runner) sys(c *Case) {
 		"[\n  "+strings.Join(flushes, ";\n  ")+"]")
 	rn.run.Add(term, c, len(conf.mute)+len(conf.active) > 0 && nPass > 0 && nBlock > 0)
 	rn.run.Count("sys_cases", fmt.Sprintf("groups:%d gi:%ds both-outcomes:%v", in.groups(), in.GI, nPass > 0 && nBlock > 0))
+	if in.groups() == 2 {
+		rn.run.Count("sys_cases", fmt.Sprintf("two groups seen by the API in opposite muted states:%v", opposite))
+	}
 }
